@@ -26,7 +26,7 @@ run C14-a-storeu-pd-stride-assert C14
 run C06-a-forward-move-tuple-compare C06
 run C06-b-forward-move-attr C06
 run C07-a-unroll-buffer-idx-alias C07
-run C07-b C07
+run C07-b-resize-dim-window-alias C07
 run C17-a-printer-loop-scope-map C17
 run C01-b-reorder-loops-bounds C01
 run C04-b-lift-scope-inner-lo C04
